@@ -240,7 +240,10 @@ class C16(Property):
             "keep_toggles": W.weighted("ktog", [(6, 0), (1, 1), (1, 2)]),
             # event values: tagged / with silent items / cancelling pairs
             "values": W.weighted("vals", [(5, "tag"), (2, "sparse"),
-                                          (2, "cancel")])}
+                                          (2, "cancel")]),
+            # how the consumer pulls: take(k), plain iteration, or both
+            "style": W.weighted("style", [(4, "take"), (1, "iter"),
+                                          (2, "mixed")])}
 
   def shrink_candidates(self, wl):
     if wl["part"] in ("mix-thread", "ctrl-thread"):
@@ -430,7 +433,24 @@ class C16(Property):
         return
       del inflight[:]
       try:
-        got = guarded("take(%d)" % k, lambda: mix.take(k))
+        style = wl.get("style", "take")
+        if style == "mixed":
+          style = "iter" if (res.counters["op.take"] % 2) else "take"
+        if style == "iter":
+          # plain iteration: next(iter(mixer)) / a for loop with break
+          def pull():
+            out = []
+            it = iter(mix)
+            for _ in range(k):
+              try:
+                out.append(next(it))
+              except StopIteration:
+                break
+            return out
+          res.counters["probe.consumed-by-plain-iteration"] += 1
+          got = guarded("iteration of %d" % k, pull)
+        else:
+          got = guarded("take(%d)" % k, lambda: mix.take(k))
       except _Mismatch:
         raise
       except Exception as exc:
